@@ -1,8 +1,8 @@
 #!/usr/bin/env python3
 """Conformance self-test of the MIR abstract machine (analysis/t2n/vm.py) against compiled Rust.
 
-Not a property check (nothing in MANIFEST.json runs it): it tests the *checker*.  Two probe modules (tools/vmprobe/*.rs,
-~140 small functions over str / slice / Vec / VecDeque / Option / Result / iterator adaptors / integer and float arithmetic /
+Not a property check (nothing in MANIFEST.json runs it): it tests the *checker*.  Three probe modules (tools/vmprobe/*.rs,
+~160 small functions over str / slice / Vec / VecDeque / Option / Result / iterator adaptors / integer and float arithmetic /
 format! / control flow, each on several inputs) are added to a scratch copy of /repo outside /repo and /verif; `cargo test`
 prints what the compiled functions return; the same functions are then interpreted by the machine from the MIR the fact
 extractor dumps for that copy, and every result must be identical.  A mismatch is a bug in the machine's model of std (it would
@@ -23,6 +23,7 @@ sys.path.insert(0, os.path.join(HERE, 'analysis'))
 
 S1 = ["vingt-et-unième", "one hundred and one", "", "42", "été"]
 S2 = ["vingt-et-unième", "one hundred and one", "", "42 7 x", "été"]
+S3 = ["2.7", "one hundred and one", "", "1.x", "été b"]
 VS = [b"120300", b"", b"7"]
 NS = [0, 1, 3, 6]
 
@@ -55,10 +56,10 @@ def main():
         for n in ('Cargo.toml', 'Cargo.lock'):
             shutil.copy(os.path.join(repo, n), d)
         shutil.copytree(os.path.join(repo, 'src'), os.path.join(d, 'src'))
-        for n in ('vmprobe.rs', 'vmprobe2.rs'):
+        for n in ('vmprobe.rs', 'vmprobe2.rs', 'vmprobe3.rs'):
             shutil.copy(os.path.join(HERE, 'tools', 'vmprobe', n), os.path.join(d, 'src', n))
         with open(os.path.join(d, 'src', 'lib.rs'), 'a') as fh:
-            fh.write('\n#[doc(hidden)]\npub mod vmprobe;\n#[doc(hidden)]\npub mod vmprobe2;\n')
+            fh.write('\n#[doc(hidden)]\npub mod vmprobe;\n#[doc(hidden)]\npub mod vmprobe2;\n#[doc(hidden)]\npub mod vmprobe3;\n')
         env = dict(os.environ, CARGO_NET_OFFLINE='true', CARGO_TARGET_DIR=os.path.join(d, 'target'))
         r = subprocess.run(['cargo', 'test', '--offline', '--lib', 'vmprobe', '--', '--nocapture'], cwd=d, env=env, capture_output=True, text=True)
         exp = collections.defaultdict(dict)
@@ -75,6 +76,8 @@ def main():
 
         def args_for(name):
             n = int(name[1:])
+            if name[0] == 't':
+                return [(str(k), a) for k, a in enumerate(S3)] if n in (3, 11, 12, 13, 14, 23) else [(str(a), a) for a in NS]
             if name[0] == 'q':
                 return [(str(k), a) for k, a in enumerate(S2)] if 16 <= n <= 21 else [(str(a), a) for a in NS]
             if 1 <= n <= 20 or 67 <= n <= 78 or 93 <= n <= 100:
@@ -90,7 +93,7 @@ def main():
             for key, a in args_for(name):
                 vm = VM(f, None, local_prefixes=('vmprobe', 'word_to_digit', 'lang', 'digit_string', 'tokenizer', 'error', '<'))
                 try:
-                    got = vm.deref(vm.run(('vmprobe2::' if name[0] == 'q' else 'vmprobe::') + name, [a]))
+                    got = vm.deref(vm.run({'q': 'vmprobe2::', 't': 'vmprobe3::'}.get(name[0], 'vmprobe::') + name, [a]))
                 except Unsupported as e:
                     bad[name] += 1
                     print(name, key, 'UNSUPPORTED', str(e)[:200])
